@@ -20,6 +20,9 @@ COMMON_NOTE = ("Trusted: the harness's dense long-double reference, the choice-s
                "Exploration only: the property is shown to hold on the generated cases (counts in the evidence file), nothing is proved.")
 
 INFO = {
+    "C11": dict(level="exploration", assumptions=["long double reference maxima; ratios judged only when every maximum lies inside [safmin, 1/safmin]; column stage not judged when a scaled maximum underflows in working precision"], note=COMMON_NOTE,
+                technique="property-based testing (rapidcheck) against a long-double reference implementation of the equilibration definition over the whole floating-point range",
+                text="Generated m x n matrices with entries from subnormal to near-overflow magnitudes are equilibrated; factors, ratios, error positions and the application rule are compared with a reference computed from the definition."),
     "C10": dict(level="exploration", assumptions=["reference elimination tree computed by definition on dense boolean matrices (n <= 60)"] + COMMON_ASSUME[1:], note=COMMON_NOTE,
                 technique="property-based testing (rapidcheck): differential against a by-definition column elimination tree, metamorphic pattern-only dependence of the ordering, postorder validity predicate",
                 text="Generated m x n patterns go through get_perm_c and sp_preorder for every ordering method; the etree is compared exactly with an independent reference and the postorder / view / permutation clauses are validity predicates."),
@@ -42,7 +45,7 @@ INFO = {
 
 NOT_APPLICABLE = {}
 
-PROPS = ["C01", "C02", "C03", "C04", "C05", "C10"]
+PROPS = ["C01", "C02", "C03", "C04", "C05", "C10", "C11"]
 
 
 def all_props():
